@@ -109,7 +109,12 @@ func genLemma(w *World, l *Lemma) *Gen {
 			g.assume("true", env.evalBool(c.E))
 		}
 		for _, c := range l.Ensures {
-			g.oblige(c.Label, "E", "lemma "+l.Name+": "+c.Src, "true", env.evalBool(c.E), false)
+			goal := env.evalBool(c.E)
+			g.oblige(c.Label, "E", "lemma "+l.Name+": "+c.Src, "true", goal, false)
+			if ex, ok := w.kfExcept[g.key+"#"+c.Label]; ok {
+				// known finding with a recorded failing class: the lemma must still hold outside that class
+				g.oblige(c.Label+".outside", "E", "lemma "+l.Name+" holds outside the recorded known-finding class ("+ex.String()+"): "+c.Src, "true", sOr(env.evalBool(ex), goal), false)
+			}
 		}
 		g.cover = []string{"true"}
 	}()
